@@ -116,6 +116,29 @@ def check_vector(v):
         if o != ("ok", wantg):
             rep("groupby[ragged key%s]" % ("" if stream else ", in-memory"), wantg, o)
 
+    # a per-chromosome function applied to the groups of a stream (chromosome_map): merged intervals per contig, streamed against in-memory
+    from bionumpy.arithmetics import merge_intervals
+    for dist in (0, 1):
+        def merged(streamed):
+            src = NpDataclassStream(iter(tchunks), dataclass=Interval) if streamed else table
+            return [[name, [[int(a), int(b)] for a, b in zip(m.start.tolist(), m.stop.tolist())]] for name, m in merge_intervals(groupby(src, "chromosome"), distance=dist)]
+        so, mo = outcome(merged, True), outcome(merged, False)
+        calls += 2
+        # [2i, 2i+1): with distance 1 neighbours of one group merge into one interval per run of consecutive positions
+        want = []
+        for k, pos in v["groups"]:
+            runs, cur = [], None
+            for q in pos:
+                s_, e_ = 2 * (q - 1), 2 * (q - 1) + 1
+                if cur is not None and dist == 1 and s_ - cur[1] <= 1:
+                    cur[1] = e_
+                else:
+                    cur = [s_, e_]
+                    runs.append(cur)
+            want.append([KEYNAMES[k], runs])
+        if so != ("ok", want) or mo != ("ok", want):
+            rep("merge_intervals[groups of a stream]", want, so if so != ("ok", want) else mo, distance=dist)
+
     def rechunk():
         out = chunk_entries(NpDataclassStream(iter(tchunks), dataclass=Interval), v["nchunk"])
         return [[int(s) // 2 + 1 for s in c.start.tolist()] for c in out]
